@@ -40,6 +40,7 @@ def dispatch (cmd : String) (args : List Sexp) : Option String :=
   | "freeze.locals" => Driver.Freeze.locals args
   | "freeze.globals" => Driver.Freeze.globals args
   | "hoist.collect" => Driver.HoistCollect.collectCmd args
+  | "hoist.groups" => Driver.HoistCollect.groupsCmd args
   | "hoist.place" => Driver.Rename.hoistPlace args
   | "rename.assign" => Driver.Rename.assignCmd args
   | "ministring" => Driver.Strings.ministring args
